@@ -18,6 +18,7 @@ Inductive op :=
 | OpTrim (n : Z) (from_start : bool)
 | OpRefCoord (name : bs) (s l : Z)    (* ints = [alistart; alilen] *)
 | OpRefSites (name : bs) (sites : list Z)
+| OpSubseqRef (name : bs) (s l : Z)   (* the command line: goalign subseq --ref-seq; err = non-zero exit status *)
 | OpConcat (calpha : Z) (c : brows)
 | OpPrefixSuffix (k : Z)              (* SubAlign(0,k), SubAlign(k,L-k), Concat *)
 | OpSplit (ranges : list (bs * (Z * Z * Z)))   (* AddRange(name, start, end, modulo) calls, then Split *)
@@ -68,6 +69,11 @@ Definition model_ok (c : case) : bool :=
       match ref_sites rs (unbs name) sites with
       | None => c_err c
       | Some l => negb (c_err c) && Zlist_eqb (c_ints c) l
+      end
+  | OpSubseqRef name s l =>
+      match ref_coordinates rs (unbs name) s l with
+      | Some (st, ln, false) => optrows_ok (c_err c) out (sub_align rs st ln)
+      | _ => c_err c
       end
   | OpConcat calpha cr =>
       let '(res, ok) := concat (c_alpha c) calpha rs (unrows cr) in
@@ -189,6 +195,18 @@ Definition spec_body (c : case) : bool :=
                 negb (isg (nth (Z.to_nat st) ref x2d)) && negb (isg (nth (Z.to_nat (st + ln - 1)) ref x2d))
             | _ => false
             end
+          else c_err c
+      end
+  | OpSubseqRef name s l =>
+      (* a window of the ungapped reference is the smallest alignment window holding it; anything else is an error *)
+      match get_seq (unbs name) rs with
+      | None => c_err c
+      | Some ref =>
+          let pos := residue_positions ref in
+          if (0 <=? s) && (0 <? l) && (s + l <=? Z.of_nat (length pos)) then
+            let st := nth (Z.to_nat s) pos 0 in
+            let en := nth (Z.to_nat (s + l - 1)) pos 0 in
+            negb (c_err c) && rows_eqb out (map (fun r => (fst r, wnd st (en - st + 1) (snd r))) rs)
           else c_err c
       end
   | OpRefSites name sites =>
